@@ -997,3 +997,53 @@ def check_no_narrowing(facts, rep, module=MODULE):
     else:
         rep.ok('E4.O6-no-narrowing-cast', inst, '%d integer casts, none narrows a 64-bit value' % n)
     rep.floor('E4.O6 integer casts in the bit-sequence module', n, 3)
+
+
+def check_from_iter_rejects(facts, rep):
+    """O7 (C17, "operations that would exceed the maximum are rejected rather than corrupting the value" - for
+    construction, and through it for parsing and From<[T; N]>): BitSeq::from_iter walks the *whole* input and rejects
+    explicitly: the iterator its loop is driven by is the input itself, not an adapter that can end early (zip with a
+    bounded range, take, take_while, ..), and every iteration passes an explicit `len < MAX_LEN` test (whose failing edge
+    diverges) before it stores a bit. A bounded zip keeps all arithmetic in range - and silently drops the 65th element."""
+    import re
+    from symex import SymEx, show, strip
+    fn = [b for k, b in facts.bodies.items() if k.endswith('BitSeq as std::iter::FromIterator<T>>::from_iter')]
+    if len(fn) != 1:
+        rep.indet('E4.O7: FromIterator for BitSeq not found')
+        return
+    b = fn[0]
+    rep.saw(b)
+
+    def dk(t):
+        return re.sub(r'&mut _\d+', 'IT', re.sub(r'#(?:i\d+:)?\d+\.\d+', '', show(t, -1000)))
+    paths = SymEx(b, havoc_loops=True, max_paths=5000).run()
+    back = [p for p in paths if p.end == 'backedge']
+    srcs = set()
+    for p in paths:
+        for (fid, bb, l), v in p.state.loop_entry.items():
+            if fid == 0 and strip(v)[0] == 'call' and strip(v)[1].endswith('into_iter'):
+                srcs.add(dk(v))
+    inst = 'BitSeq::from_iter|walks the whole input, rejects the 65th element explicitly'
+    if not back or len(srcs) != 1:
+        rep.indet('E4.O7: from_iter has no single input loop (sources %s)' % sorted(srcs))
+        return
+    src = next(iter(srcs))
+    names = re.findall(r'([a-z_]+)\(', src)
+    cut = [n for n in names if n in ('zip', 'take', 'take_while', 'map_while', 'skip', 'skip_while', 'step_by', 'scan', 'chunks')]
+    if cut:
+        rep.violation('E4.O7-construction-rejects', inst,
+                      'BitSeq::from_iter drives its loop by %s: %s ends the iteration when the bound is reached, so an input longer than MAX_LEN is silently truncated to its first 64 elements instead of being rejected (parsing and From<[T; N]> collect through it)' % (src, cut[0]),
+                      where=b.where())
+        return
+    if not re.match(r'(into_iter\()+arg1\)+$', src):
+        rep.indet('E4.O7: from_iter iterates over %s' % src)
+        return
+    unguarded = []
+    for p in back:
+        explicit = [dk(e.term) for e in p.branches() if not (e.name or '').startswith('assert:') and re.match(r'(Lt|Le)\(loop\w+, (64|63)\)$', dk(e.term)) and e.value != 0]
+        if not explicit:
+            unguarded.append([dk(e.term)[:40] for e in p.branches()][:3])
+    if unguarded:
+        rep.violation('E4.O7-construction-rejects', inst, 'an iteration of BitSeq::from_iter stores a bit without having passed an explicit `len < MAX_LEN` test (%s)' % unguarded[0], where=b.where())
+    else:
+        rep.ok('E4.O7-construction-rejects', inst, 'for b in iter { assert!(len < 64); .. } over the input itself')
